@@ -129,7 +129,7 @@ def h_classify(loc: str) -> bool:
 # A temporary tree <tmp>/sand/{main schemas, in.xsd, sub/in2.xsd}, <tmp>/outside/x.xsd, <tmp>/sandbox2/x.xsd (a sibling
 # directory sharing the sandbox name as prefix).  The outside schemas declare an element that must never appear in the
 # built schema or decide a verdict when allow='sandbox' (or 'none'); the inside ones must load.
-MECHS = ["include", "import", "redefine", "override", "locations-arg", "instance-hint"]
+MECHS = ["include", "import", "redefine", "override", "locations-arg", "instance-hint", "instance-source"]
 SPELL = ["in.xsd", "sub/in2.xsd", "../outside/x.xsd", "ABS/outside/x.xsd", "file://ABS/outside/x.xsd", "sub/../../outside/x.xsd",
          "../sand2/x.xsd", "ABS/sand/../outside/x.xsd", "file://ABS/sand/%2e%2e/outside/x.xsd", "ABS/sand/in.xsd", "./sub/../in.xsd"]
 INSIDE = {0, 1, 9, 10}
@@ -182,6 +182,8 @@ def _reach_concrete(mech, si):
     import xmlschema
     from xmlschema.exceptions import XMLSchemaException
     root = _tree()
+    if mech == "instance-source":
+        return _instance_source(root, si)
     loc = SPELL[si].replace("ABS", root)
     inside = si in INSIDE
     foreign = mech in ("import", "locations-arg", "instance-hint")      # the referenced schema has its own namespace
@@ -230,6 +232,32 @@ def _reach_concrete(mech, si):
         except XMLSchemaException:
             return not inside              # a blocked reference may be reported as an error; an inside one must load
     return loaded == inside
+
+
+def _instance_source(root, si):
+    """the spelled location is the INSTANCE handed to the schema's validation API: a schema created with allow='sandbox'
+    opens it only inside its sandbox"""
+    import os
+    import xmlschema
+    from xmlschema.exceptions import XMLSchemaException
+    main = os.path.join(root, "sand", "main_i.xsd")
+    _write(main, _schema_text("urn:m", '<xs:element name="doc" type="xs:int"/>'))
+    for rel in ("sand/in.xsd", "sand/sub/in2.xsd", "outside/x.xsd", "sand2/x.xsd"):          # same file names, instance content
+        _write(os.path.join(root, rel), '<doc xmlns="urn:m">notanint</doc>')
+    # an explicit base_url fixes the sandbox for every resource opened on behalf of the schema (without it the sandbox of an
+    # instance given by the caller is the instance's own directory, by design)
+    schema = xmlschema.XMLSchema10(main, allow="sandbox", base_url=os.path.join(root, "sand"))
+    loc = SPELL[si].replace("ABS", root)
+    if not (loc.startswith('/') or loc.startswith('file:')):
+        loc = os.path.join(root, "sand", loc)          # a relative instance path is relative to the process, make it explicit
+    inside = si in INSIDE
+    try:
+        errors = list(schema.iter_errors(loc))
+    except XMLSchemaException:
+        return not inside          # blocked
+    except OSError:
+        return not inside
+    return inside and len(errors) == 1          # opened: allowed only inside, and then really validated
 
 
 def explain(fn, args):
